@@ -116,13 +116,12 @@ def check_single(args):
                     rep("sum_intervals_from_point", [l, p], got, exp)
             except Hang:
                 rep("sum_intervals_*", [l, p], "HANG", "termination")
-        # truncate_read_to_polya : domain = polyA strictly inside an exon after its first base, polyT strictly
-        # before the last base of an exon, polyT < polyA
+        # truncate_read_to_polya : domain = polyA and polyT positions inside exons (first and last bases included), polyT < polyA
         for pa in [-1] + sorted(P):
             for pt in [-1] + sorted(P):
-                if pa != -1 and not any(a < pa <= b for a, b in l):
+                if pa != -1 and not any(a <= pa <= b for a, b in l):
                     continue
-                if pt != -1 and not any(a <= pt < b for a, b in l):
+                if pt != -1 and not any(a <= pt <= b for a, b in l):
                     continue
                 if pa != -1 and pt != -1 and not pt < pa:
                     continue
@@ -528,8 +527,7 @@ def run(ctx):
     })
     ctx.assumptions += [
         "interval lists are sorted and pairwise disjoint (the precondition stated by the property)",
-        "truncate_read_to_polya: polyA position strictly after the first base of an exon, polyT strictly before the last "
-        "base of an exon, polyT < polyA",
+        "truncate_read_to_polya: polyA and polyT positions inside exons (any base), polyT < polyA",
         "read profiles with delta=1 are enumerated over features (exons and introns) of length >=3 > 2*delta: the sweep relies on "
         "matching features overlapping and on a known feature not being overlapped by two read features, true for every feature "
         "longer than 2*delta",
